@@ -22,8 +22,9 @@ notes = open(f"{src}/notes.md").read() if os.path.exists(f"{src}/notes.md") else
 m = re.search(r"^#+\s*What it needs[^\n]*\n(.*?)(?=^#+\s|\Z)", notes, re.S | re.M)
 needs = re.sub(r"\s+", " ", m.group(1)).strip()[:1500] if m else ""
 log = open(f"{src}/verify.log").read()
-suite = re.findall(r"Summary \[[^\n]*", log)
-fails = sorted(set(re.findall(r"^\s+FAIL \[[^\]]*\] \([^)]*\) (.*)$", log, re.M)))
+suite_part = log.split("### demo with patch")[0]
+suite = re.findall(r"Summary \[[^\n]*", suite_part)
+fails = sorted(set(re.findall(r"^\s+FAIL \[[^\]]*\] \([^)]*\) (.*)$", suite_part, re.M)))
 allv = open("/tmp/seed-out/verify-all.log").read()
 line = next((l for l in allv.splitlines() if l.startswith(f"{P}/{V}:")), "")
 rc = re.search(r"demo_with_rc=(\d+) demo_without_rc=(\d+)", line)
